@@ -16,7 +16,7 @@ PROPERTY = "C25"
 LEVEL = "exploration"
 BUDGET = {"quick": 4000, "thorough": 250000}
 CHUNK = 50
-RUN_TIMEOUT_S = 120
+RUN_TIMEOUT_S = 1500
 RULE = (
     "seeded histories (5..300 ops) over one Revolute between origin-frame/rigid body or rigid body/rigid body, "
     "random axis, joint frame, angle0; ops rotate(delta in (-pi/2,pi/2), biased to quadrant boundaries and long "
